@@ -101,6 +101,17 @@ def handleStaged : Handler := fun op =>
       out := (outcomeName r.1 ++ ":" ++ bitmap s ++ ":" ++ cmp s.fitted ref.fitted ++ cmp s.predictor ref.predictor
               ++ cmp s.pre ref.pre) :: out
     return "ok " ++ bitmap (initState init' 100) ++ " " ++ " ".intercalate out.reverse
+  | "stagedpipe" => some do
+    -- the transcribed source facts of a pipeline: order of the `_prepare_attribute` calls and read-sets
+    let pt ← tok
+    let pl ← (match pt with
+      | "D" => pure densityPipeline
+      | "T" => pure timePipeline
+      | "M" => pure dimensionalityPipeline
+      | _ => throw s!"pipeline? {pt}")
+    let names := fun (l : List Attr) => ",".intercalate (l.map attrName)
+    let reads := ";".intercalate (pl.order.map fun a => attrName a ++ ":" ++ names (pl.reads a))
+    return s!"ok order={names pl.order} reads={reads} opt={names pl.optReads} post={names pl.postReads} condreq={names pl.condReq} cond={names pl.condReads}"
   | _ => none
 
 end Drv
